@@ -114,6 +114,21 @@ CLAIMED = {
             "than performed. Real pipes with staggered writers are not used (delivery is scripted instead, which "
             "covers the same short-read behaviours deterministically).",
             "DESIGN.md 3.14"),
+    "C15": ("TLA+ closed model kernel pipes || scripted child || parent poll loop (spec/Subprocess), one action per "
+            "system-call level step: TLC checks completeness, status, reaping, descriptor closing and termination over "
+            "all interleavings; real runs against scripted children with interposed, delayable parent system calls are "
+            "validated (property checks + refinement of the logged system-call word)",
+            "Model: 7 child programs x pipe capacities 1-3 x run_process/communicate, every interleaving, with "
+            "termination under fairness; three legacy variants (no drain, no closing, communicate without drain) must "
+            "fail. Implementation: 14 child programs x payloads {none,0,1,4096,65537,1 MiB} (thorough 11 sizes) x "
+            "delay plans injected at the parent's waitpid/poll/read via link-time interposition, check on/off, "
+            "timeouts, repeated calls, each under a watchdog; TLC computes the expected output volumes and status from "
+            "the child's program and decides every run; the parent's system-call sequence must be a word of the "
+            "modelled loop (else MODEL-DRIFT).",
+            "Trusted: TLC; the harness's comparison of large outputs with the stream pattern; SIGPIPE ignored by the "
+            "caller. communicate() does not service a piped stderr: children writing more than a pipe-full to stderr "
+            "are not driven through communicate. Hangs are confirmed by an immediate re-run before being reported.",
+            "DESIGN.md 3.15"),
 }
 
 NOT_YET = "check not built yet in this round (planned: see DESIGN.md section 3)"
